@@ -3,6 +3,9 @@ package chansim
 import (
 	"fmt"
 
+	"github.com/lightningnetwork/lnd/channeldb"
+	"github.com/lightningnetwork/lnd/fn/v2"
+
 	"github.com/lightningnetwork/lnd/lntypes"
 	"github.com/lightningnetwork/lnd/lnwire"
 )
@@ -78,6 +81,9 @@ func (s *Sim) enabled(k Knobs) []event {
 	}
 	if k.CutW > 0 && s.faults < 4 {
 		ev = append(ev, event{"cut", 0, k.CutW})
+	}
+	if s.Mode.StaleWrites && s.staleWrites < 3 {
+		ev = append(ev, event{"stale-write", 0, 1}, event{"stale-write", 1, 1})
 	}
 	return ev
 }
@@ -187,6 +193,8 @@ func (s *Sim) Run() {
 			s.deliverPrefixesAndCut(1 - e.side)
 		case "cut":
 			s.deliverPrefixesAndCut(-1)
+		case "stale-write":
+			s.opStaleWrite(e.side)
 		}
 		s.CheckAll()
 		s.noteConcurrency()
@@ -315,4 +323,38 @@ func (s *Sim) checkAtRest(phase string) {
 		s.checkMirror(&own, x, &peerCopy, fmt.Sprintf("at rest: %s.Local vs %s.Remote", nm(x), nm(o)))
 	}
 	r.Count("at_rest_checks")
+}
+
+// opStaleWrite: another subsystem of the node (chain watcher on spend
+// detection, funding manager, closer) records a status field through its own
+// handle on the channel, loaded when the node started. Such a write must
+// never disturb what the link has made durable since.
+func (s *Sim) opStaleWrite(side int) {
+	r := s.R
+	st := s.P[side].Stale
+	s.staleWrites++
+	var err error
+	var what string
+	switch r.Draw(4) {
+	case 0:
+		what = "MarkCloseConfirmationHeight"
+		err = st.MarkCloseConfirmationHeight(fn.Some(uint32(700000 + r.Draw(100))))
+	case 1:
+		what = "ResetCloseConfirmationHeight"
+		err = st.ResetCloseConfirmationHeight()
+	case 2:
+		what = "MarkConfirmationHeight"
+		err = st.MarkConfirmationHeight(uint32(600000 + r.Draw(100)))
+	default:
+		what = "MarkShutdownSent"
+		err = st.MarkShutdownSent(channeldb.NewShutdownInfo([]byte{0x00, 0x14, 1, 2, 3, 4, 5, 6, 7, 8, 9, 10, 11, 12, 13, 14, 15, 16, 17, 18, 19, 20}, side == 0))
+	}
+	if err != nil {
+		r.Fail("stale-handle-write", "%s: %s through the node's secondary handle fails: %v", nm(side), what, err)
+	}
+	r.Count("fault_stale_handle_write")
+	r.Logf("%s: %s via the secondary (start-up) handle", nm(side), what)
+	if s.Mode.ForkReload == 0 {
+		s.ForkCheck(false)
+	}
 }
